@@ -163,6 +163,7 @@ Inductive uop :=
 | USocksCounts (srv : Z)
 | USocksBindStart (srv port : Z)
 | UUdpSendBytes (s : Z) (data : list Z) (dst : endpoint)
+| URslvDestroy (r : Z)
 | UTcpWriteBytes (s : Z) (data : list Z) (h : Z)
 | UTcpReadRaw (s bufsize h : Z) (loop : bool).     (* loop: re-issued after every successful completion *)                    (* async_read_some whose handler also reports the bytes *)   (* async_write_some of explicit bytes *)                 (* verification hook: simulation::verif_set_next_bind_port *)
 
